@@ -679,11 +679,10 @@ def oracle_case(case, res):
     for si, step in enumerate(steps):
         ft = step["fault"]
         tag = f"after attempt {si} ({'fault ' + ft['kind'] if ft else 'clean retry'})"
-        corrupted = False
+        corrupted = any(step["after"][k]["find"] not in ("ok", "err DataNotAvailable") for k in scen["keys"])
         for key in scen["keys"]:
             a = step["after"][key]
             if a["find"] not in ("ok", "err DataNotAvailable"):
-                corrupted = True
                 msg = f"{tag}: is_stored({key}) raised {a['find'][4:]} instead of reporting the data unavailable"
                 if a["d12"] and a["find"] == "err DataCorrupted" and reached_by_rmtree_of_broken(steps[:si + 1], key):
                     tagged.append(msg + " " + D12_TAG)
@@ -695,9 +694,10 @@ def oracle_case(case, res):
                     plain.append(f"{tag}: {key} is reported stored but loading fails with {a['load']}")
                 elif a["rows"] != ref[key]["rows"]:
                     plain.append(f"{tag}: {key} is reported stored but its rows differ from the fault-free result")
-            elif ft is None and (key == target or saver_ops(step["trace"], key)):
+            elif ft is None and not corrupted and (key == target or saver_ops(step["trace"], key)):
                 # the request was for the last key of the graph; an intermediate type only has to be there if this
-                # attempt set out to save it
+                # attempt set out to save it.  (When some key is in the corrupted state the whole request fails
+                # at once; that is reported above, not once more per key.)
                 plain.append(f"{tag}: {key} is still unavailable (find={a['find']})")
         if ft is None:
             if step["outcome"] != "success" and not corrupted:
